@@ -10,6 +10,7 @@ import DDV.Extracted.Tables
 import DDV.Gen.AddrSem
 import DDV.Gen.Lemmas.MinMax
 import DDV.Gen.Lemmas.Tree
+import DDV.Gen.Lemmas.Internal
 
 namespace DDV.Props.C13
 open DDV.Gen DDV.Extracted
@@ -369,5 +370,106 @@ theorem address_types_specified_iff (d : Device) :
       | ref r => rfl
     rw [this]
     exact ⟨d, rfl⟩
+
+/-! ### The internal address type (`find_best_internal_address`): the type of `base_address` and of all
+     emitted address arithmetic -/
+
+/-- The lowering's internal type is what `find_best_internal_address` returns for the device. -/
+theorem lower_internal (n : Names) (name : String) (d : Device) (l : Lir) (h : lower n name d = .ok l) :
+    findBestInternalAddress d = .ok (l.internalSigned, l.internalBits) := by
+  unfold lower at h
+  simp only [bind, Except.bind, pure, Except.pure] at h
+  split at h
+  · cases h
+  split at h
+  · cases h
+  cases hf : transformFieldSets d ((collectEnums d.objects).map (·.1)) with
+  | error e => rw [hf] at h; cases h
+  | ok fs =>
+    rw [hf] at h
+    simp only at h
+    cases hc : collectIntoBlocks n d.config d.objects (2 * (allObjects d.objects).length + 4) none name true d.objects with
+    | error e => rw [hc] at h; cases h
+    | ok bl =>
+      rw [hc] at h
+      simp only at h
+      cases hb : findBestInternalAddress d with
+      | error e => rw [hb] at h; cases h
+      | ok p =>
+        rw [hb] at h
+        simp only [Except.ok.injEq] at h
+        subst h
+        rfl
+
+/-- **The internal type is a Rust integer**: `u8 … u64` or `i8 … i64`. -/
+theorem internal_type_is_a_rust_integer (n : Names) (name : String) (d : Device) (l : Lir)
+    (h : lower n name d = .ok l) :
+    l.internalBits = 8 ∨ l.internalBits = 16 ∨ l.internalBits = 32 ∨ l.internalBits = 64 :=
+  internal_bits_rust d _ _ (lower_internal n name d l h)
+
+/-- **The internal type holds every address the analysis reached**: zero and every instance of
+    every object (any kind), taken at the sum of its enclosing blocks' offsets, lie within the range
+    of the type chosen for `base_address`, and that type is unsigned only if none of them is negative. -/
+theorem internal_type_covers_every_visited_instance (n : Names) (name : String) (d : Device) (l : Lir)
+    (hs : SmallCountsList d.objects) (h : lower n name d = .ok l) :
+    (typeRange l.internalSigned l.internalBits).1 ≤ 0 ∧ 0 ≤ (typeRange l.internalSigned l.internalBits).2 ∧
+    BoundsList (fun _ => true) (typeRange l.internalSigned l.internalBits).1
+      (typeRange l.internalSigned l.internalBits).2 0 d.objects := by
+  obtain ⟨mn, mx, hmm, h1, h2⟩ := internal_type_covers_range d _ _ (lower_internal n name d l h)
+  obtain ⟨b1, b2, b3⟩ := findMinMax_bounds (fun _ => true) (fun _ _ => rfl) d.objects hs mn mx hmm
+  exact ⟨by omega, by omega, boundsList_mono _ mn mx _ _ h1 h2 d.objects 0 b3⟩
+
+/-- Where the emitted arithmetic `self.base_address + ADDRESS (+|-) index as T * |STRIDE|`, evaluated
+    left to right in the internal type `T = [lo, hi]`, agrees with the exact sum: exactly when the
+    literal, the partial sum, the index, the stride, their product and the result all fit `T`.
+    (The analysis covers the partial sum and the result — they are instance addresses; the literal
+    of an object below a positive block offset and the product are not covered: findings F15 / F6c.) -/
+theorem internal_arithmetic_exact_iff (lo hi : Int) (m : Method) (base : Int) (idx : Nat) (v : Int) :
+    m.addrAtT lo hi base idx = some v ↔
+      m.addrAt base idx = some v ∧ fitsT lo hi m.address = true ∧ fitsT lo hi (base + m.address) = true ∧
+      (∀ r, m.repeat_ = some r →
+        fitsT lo hi (idx : Int) = true ∧ fitsT lo hi (r.stride.natAbs : Int) = true ∧
+        fitsT lo hi ((idx : Int) * (r.stride.natAbs : Int)) = true ∧ fitsT lo hi v = true) := by
+  unfold Method.addrAtT Method.addrAt
+  cases hr : m.repeat_ with
+  | none =>
+    by_cases h1 : fitsT lo hi m.address = true <;> by_cases h2 : fitsT lo hi (base + m.address) = true <;>
+      by_cases h3 : idx = 0 <;> simp [h1, h2, h3]
+  | some r =>
+    by_cases h1 : fitsT lo hi m.address = true <;> by_cases h2 : fitsT lo hi (base + m.address) = true <;>
+      by_cases h3 : idx < r.count <;> simp [h1, h2, h3]
+    by_cases h4 : fitsT lo hi (idx : Int) = true <;> by_cases h5 : fitsT lo hi (r.stride.natAbs : Int) = true <;>
+      by_cases h6 : fitsT lo hi ((idx : Int) * (r.stride.natAbs : Int)) = true <;> simp [h4, h5, h6]
+    by_cases hs : r.stride < 0 <;> simp [hs]
+    · constructor
+      · intro ⟨a, b⟩; subst b; exact ⟨rfl, a⟩
+      · intro ⟨a, b⟩; subst a; exact ⟨b, rfl⟩
+    · constructor
+      · intro ⟨a, b⟩; subst b; exact ⟨rfl, a⟩
+      · intro ⟨a, b⟩; subst a; exact ⟨b, rfl⟩
+
+/-- Whatever a chain of accessors computes in the internal type without leaving it is the exact
+    address of that chain (C04's `evalChain`), and a valid index tuple stays valid. -/
+theorem internal_chain_sound (lo hi : Int) :
+    ∀ (ch : List (Method × Nat)) (base v : Int), evalChainT lo hi ch base = some v → evalChain ch base = some v
+  | [], base, v, h => by simpa [evalChainT, evalChain] using h
+  | (m, i) :: rest, base, v, h => by
+    unfold evalChainT at h
+    unfold evalChain
+    cases ha : m.addrAtT lo hi base i with
+    | none => rw [ha] at h; cases h
+    | some a =>
+      rw [ha] at h
+      have := ((internal_arithmetic_exact_iff lo hi m base i a).1 ha).1
+      rw [this]
+      exact internal_chain_sound lo hi rest a v h
+
+/-- F6c, as a witness: `i8`, `register @100 { REPEAT 3 × -100 }` — every instance (100, 0, -100)
+    fits `i8`, the product `2 * 100` does not. -/
+theorem f6c_counterexample :
+    let m : Method := { name := "r", cfg := none, kind := .register, address := 100, allowAddressOverlap := false,
+                        repeat_ := some ⟨3, -100⟩ }
+    m.addrAt 0 2 = some (-100) ∧ m.addrAtT (-128) 127 0 2 = none := by
+  decide
 
 end DDV.Props.C13
